@@ -2718,6 +2718,17 @@ private:
         s << "==> " << term_names[info.t];
     }
 
+    constexpr size16_t find_reduction_rule(size16_t state_idx, size16_t term_idx) const
+    {
+        for (size16_t i = 0; i < rule_count; ++i)
+        {
+            situation_info info{ i, gi.rule_infos[i].r_elements, term_idx };
+            if (states[state_idx].test(make_situation_idx(info)))
+                return gi.rule_infos[i].r_idx;
+        }
+        return uninitialized16;
+    }
+
     template<typename Stream>
     constexpr void write_state_diag_str(Stream& s, size16_t idx) const
     {
@@ -2753,7 +2764,7 @@ private:
             else if (entry.kind == parse_table_entry_kind::reduce && entry.has_sr_conflict)
                 s << " S/R CONFLICT, prefer reduce(" << gi.rule_infos[entry.arg].r_idx << ") over shift\n";
             else if (is_shift(entry.kind) && entry.has_sr_conflict)
-                s << " S/R CONFLICT, prefer shift over reduce(" << gi.rule_infos[entry.arg].r_idx << ")\n";
+                s << " S/R CONFLICT, prefer shift over reduce(" << find_reduction_rule(idx, size16_t(term_idx)) << ")\n";
             else if (is_shift(entry.kind))
                 s << " shift to " << entry.arg << "\n";
             else if (entry.kind == parse_table_entry_kind::reduce)
